@@ -581,4 +581,291 @@ theorem slew_clamp_bound {p : F64} {D : Int} (hp : p ≠ .nan) (h1 : 1 ≤ D) (h
   · generalize pow2 (-1075) = t at *; grind
   · generalize pow2 (-1075) = t at *; grind
 
+/-! ### finiteness of the proportional term, gains, Adjust calls -/
+
+theorem intCast_abs_le {n : Int} {m : Nat} (h : n.natAbs ≤ m) : ((n : Int) : Rat).abs ≤ ((m : Int) : Rat) := by
+  rw [abs_le_iff]
+  constructor
+  · rw [← Rat.intCast_neg]; exact intCast_le_lit (by omega)
+  · exact intCast_le_lit (by omega)
+
+theorem ofInt_exact {n : Int} (h : n.natAbs ≤ 2 ^ 53) :
+    ofInt n = if n = 0 then .zero false else .fin (n : Rat) := by
+  unfold ofInt
+  by_cases h0 : n = 0
+  · subst h0; simp only [if_true]; exact roundNE_zero
+  · simp only [h0, if_false]
+    refine roundNE_of_rep (rep_intCast h) ?_ ?_
+    · intro hc; exact h0 (by have := Rat.intCast_eq_zero_iff.mp hc; exact this)
+    · have h1 := intCast_abs_le h
+      have h2 : (((2 ^ 53 : Nat) : Int) : Rat) < pow2 1024 := by decide +kernel
+      grind
+
+/-- `Duration.Seconds()` of any int64 is a finite double. -/
+theorem durationSeconds_finite {d : Int} (h : minI64 ≤ d ∧ d ≤ maxI64) :
+    isFinite (durationSeconds d) = true := by
+  unfold minI64 maxI64 at h
+  unfold durationSeconds
+  have hq : (Int.tdiv d 1000000000).natAbs ≤ 9223372037 := by
+    rcases Int.le_total 0 d with h0 | h0
+    · rw [Int.tdiv_eq_ediv_of_nonneg h0]; omega
+    · have : Int.tdiv d 1000000000 = -((-d) / 1000000000) := by
+        rw [← Int.tdiv_eq_ediv_of_nonneg (by omega), Int.neg_tdiv, Int.neg_neg]
+      rw [this]; omega
+  have hr : (Int.tmod d 1000000000).natAbs < 1000000000 := by
+    rcases Int.le_total 0 d with h0 | h0
+    · rw [Int.tmod_eq_emod_of_nonneg h0]; omega
+    · have : Int.tmod d 1000000000 = -((-d) % 1000000000) := by
+        rw [← Int.tmod_eq_emod_of_nonneg (by omega), Int.neg_tmod, Int.neg_neg]
+      rw [this]; omega
+  rw [ofInt_exact (n := Int.tdiv d 1000000000) (by omega),
+    ofInt_exact (n := Int.tmod d 1000000000) (by omega), ofInt_second]
+  generalize Int.tdiv d 1000000000 = q at *
+  generalize Int.tmod d 1000000000 = r at *
+  have hqa := intCast_abs_le (m := 9223372037) hq
+  have hra := intCast_abs_le (m := 1000000000) (by omega : r.natAbs ≤ 1000000000)
+  have e1 : (((9223372037 : Nat) : Int) : Rat) = 9223372037 := by decide +kernel
+  have e2 : (((1000000000 : Nat) : Int) : Rat) = 1000000000 := by decide +kernel
+  rw [e1] at hqa; rw [e2] at hra
+  rw [abs_le_iff] at hqa hra
+  have hdiv : isFinite (div (if r = 0 then F64.zero false else .fin (r : Rat)) (.fin 1000000000)) = true
+      ∧ (toRat (div (if r = 0 then F64.zero false else .fin (r : Rat)) (.fin 1000000000))).abs ≤ 1 := by
+    by_cases hr0 : r = 0
+    · simp only [hr0, if_true, div, isFinite, toRat]; exact ⟨trivial, by decide +kernel⟩
+    · simp only [hr0, if_false, div]
+      have hb : ((r : Rat) / 1000000000).abs ≤ 1 := by
+        rw [abs_le_iff]; constructor
+        · rw [le_div_iff (by decide)]; grind
+        · rw [div_le_iff (by decide)]; grind
+      have hm : ((r : Rat) / 1000000000).abs ≤ maxFin := big_le_maxFin (by grind)
+      refine ⟨isFinite_roundNE_of_le hm, ?_⟩
+      rw [toRat_roundNE_of_le hm]
+      exact rnd_abs_le_of_rep rep_one hb
+  generalize div (if r = 0 then F64.zero false else .fin (r : Rat)) (.fin 1000000000) = y at hdiv
+  obtain ⟨hyf, hyb⟩ := hdiv
+  rw [abs_le_iff] at hyb
+  by_cases hq0 : q = 0
+  · simp only [hq0, if_true]
+    cases y <;> simp [isFinite] at hyf <;> simp [add, isFinite]
+  · simp only [hq0, if_false]
+    cases y with
+    | nan => simp [isFinite] at hyf
+    | inf n => simp [isFinite] at hyf
+    | zero b => simp [add, isFinite]
+    | fin v =>
+      simp only [add]
+      simp only [toRat] at hyb
+      exact isFinite_roundNE_of_le (big_le_maxFin (by rw [abs_le_iff]; constructor <;> grind))
+
+theorem mul_ne_nan {x y : F64} (hx : isFinite x = true) (hy : isFinite y = true) : mul x y ≠ .nan := by
+  cases x <;> cases y <;> simp [isFinite] at hx hy <;> simp [mul]
+  exact roundNE_ne_nan _
+
+
+/-! ### gains stay bounded (under `0 ≤ pow ≤ 1`) -/
+
+def pInitR : Rat := 5944751508129055 / 18014398509481984
+def bInitR : Rat := 6341068275337659 / 1152921504606846976
+theorem pInit_eq : pInit = .fin pInitR := by decide +kernel
+theorem bInit_eq : div pInit iInit = .fin bInitR := by decide +kernel
+theorem rep_pInitR : Rep pInitR :=
+  (WF.rep (v := pInitR) ⟨by decide +kernel, by decide +kernel⟩).1
+theorem rep_bInitR : Rep bInitR :=
+  (WF.rep (v := bInitR) ⟨by decide +kernel, by decide +kernel⟩).1
+
+/-- `l.a ∈ [0, 0.33]`, `l.b ∈ [0, 0.33/60]`, both finite. -/
+structure Gain (s : State) : Prop where
+  a : Bd pInitR s.a
+  b : Bd bInitR s.b
+
+theorem gain_init : Gain init :=
+  ⟨⟨by decide +kernel, by decide +kernel, by decide +kernel⟩,
+   ⟨by decide +kernel, by decide +kernel, by decide +kernel⟩⟩
+
+theorem mul_bd {M : Rat} {x y : F64} (hx : Bd M x) (hy : Bd 1 y) (hR : Rep M) (hM : M ≤ maxFin) :
+    Bd M (mul x y) := by
+  obtain ⟨hfx, hx0, hx1⟩ := hx
+  obtain ⟨hfy, hy0, hy1⟩ := hy
+  have hM0 : 0 ≤ M := Rat.le_trans hx0 hx1
+  cases x with
+  | nan => simp [isFinite] at hfx
+  | inf n => simp [isFinite] at hfx
+  | zero a =>
+    cases y with
+    | nan => simp [isFinite] at hfy
+    | inf n => simp [isFinite] at hfy
+    | zero b => exact ⟨rfl, Rat.le_refl, hM0⟩
+    | fin v => exact ⟨rfl, Rat.le_refl, hM0⟩
+  | fin u =>
+    cases y with
+    | nan => simp [isFinite] at hfy
+    | inf n => simp [isFinite] at hfy
+    | zero b => exact ⟨rfl, Rat.le_refl, hM0⟩
+    | fin v =>
+      simp only [mul, toRat] at *
+      have h1 : 0 ≤ u * v := Rat.mul_nonneg hx0 hy0
+      have h2 : u * v ≤ u * 1 := Rat.mul_le_mul_of_nonneg_left hy1 hx0
+      exact bd_roundNE h1 (by grind) hR hM
+
+theorem aLow_bd : Bd pInitR aLow := ⟨by decide +kernel, by decide +kernel, by decide +kernel⟩
+theorem bLow_bd : Bd bInitR bLow := ⟨by decide +kernel, by decide +kernel, by decide +kernel⟩
+theorem aMid_bd : Bd pInitR aMid := ⟨by decide +kernel, by decide +kernel, by decide +kernel⟩
+theorem bMid_bd : Bd bInitR bMid := ⟨by decide +kernel, by decide +kernel, by decide +kernel⟩
+
+theorem gains_bd {s : State} (hg : Gain s) {pw : F64} (hpw : Bd 1 pw) (mdt : Int) (w : F64) :
+    Gain (gains s mdt w pw).1 ∧ Bd pInitR (gains s mdt w pw).2.1 ∧ Bd bInitR (gains s mdt w pw).2.2 := by
+  have hA : pInitR ≤ maxFin := Rat.le_trans (by decide +kernel) maxFin_big
+  have hB : bInitR ≤ maxFin := Rat.le_trans (by decide +kernel) maxFin_big
+  unfold gains
+  split
+  · exact ⟨hg, aLow_bd, bLow_bd⟩
+  · split
+    · exact ⟨hg, aMid_bd, bMid_bd⟩
+    · split
+      · have ha := mul_bd hg.a hpw rep_pInitR hA
+        have hb := mul_bd hg.b hpw rep_bInitR hB
+        exact ⟨⟨ha, hb⟩, ha, hb⟩
+      · exact ⟨hg, hg.a, hg.b⟩
+
+theorem step_gain {s : State} {e : Nat} {now off : Int} {w pw : F64} (hg : Gain s) (hpw : Bd 1 pw) :
+    Gain ((step s e now off w pw).next s) := by
+  have hg0 : Gain (syncEpoch s e) := by
+    rcases syncEpoch_cases s e with ⟨_, h⟩ | ⟨_, h⟩ <;> rw [h]
+    · exact ⟨hg.a, hg.b⟩
+    · exact hg
+  have hspec := step_spec s e now off w pw
+  simp only at hspec
+  rcases hspec with ⟨_, hr⟩ | ⟨_, _, hr⟩ | ⟨_, _, _, _, hr⟩ | ⟨_, _, _, _, hr⟩ | ⟨_, _, _, hr⟩ |
+      ⟨_, _, hr⟩ | ⟨_, _, _, hr⟩ | ⟨_, _, _, hr⟩ | ⟨_, _, hr⟩ | ⟨_, _, _, hr⟩ | ⟨_, _, _, hr⟩ | ⟨_, hr⟩
+  all_goals rw [hr]
+  all_goals try exact hg
+  all_goals try exact ⟨hg0.a, hg0.b⟩
+  · refine ⟨?_, ?_⟩
+    · show Bd pInitR pInit
+      rw [pInit_eq]; exact ⟨rfl, by decide +kernel, Rat.le_refl⟩
+    · show Bd bInitR (div pInit iInit)
+      rw [bInit_eq]; exact ⟨rfl, by decide +kernel, Rat.le_refl⟩
+  · have hgb := gains_bd hg0 hpw (timeSub now (syncEpoch s e).t0) w
+    rcases track_cases (syncEpoch s e) now (timeSub now (syncEpoch s e).t0)
+        (durationSeconds (timeSub now (syncEpoch s e).t)) (inv off) w pw with ⟨_, h⟩ | ⟨_, h⟩
+    all_goals rw [h]; exact ⟨hgb.1.a, hgb.1.b⟩
+
+/-- Everything about an `Adjust` call made by one update. -/
+theorem step_adjust {s s' : State} {e : Nat} {now off : Int} {w pw : F64} {acts : List Action}
+    {o d : Int} {f : F64}
+    (h : step s e now off w pw = .ok s' acts) (ha : Action.adjust o d f ∈ acts) :
+    e = s.epoch ∧ s.mode = 3 ∧ s'.mode = 3 ∧ acts = [.adjust o d f] ∧ f = s'.i ∧
+    0 ≤ timeSub now s.t0 ∧
+    gt (ceil (durationSeconds (timeSub now s.t))) fzero = true ∧
+    d = toDuration (ceil (durationSeconds (timeSub now s.t))) ∧
+    o = toDuration (clamp (mul (durationSeconds (inv (inv off))) (gains s (timeSub now s.t0) w pw).2.1)
+          (ceil (durationSeconds (timeSub now s.t)))) ∧
+    s'.i = add s.i (mul (mul (durationSeconds (inv (inv off))) (gains s (timeSub now s.t0) w pw).2.1)
+          (gains s (timeSub now s.t0) w pw).2.2) := by
+  have h0 : (syncEpoch s e).mode ≠ 0 → syncEpoch s e = s ∧ e = s.epoch := by
+    rcases syncEpoch_cases s e with ⟨h', h⟩ | ⟨h', h⟩ <;> rw [h] <;> simp [h']
+  have hspec := step_spec s e now off w pw
+  simp only at hspec
+  rw [h] at hspec
+  rcases hspec with ⟨_, hr⟩ | ⟨_, _, hr⟩ | ⟨_, _, _, _, hr⟩ | ⟨_, _, _, _, hr⟩ | ⟨_, _, _, hr⟩ |
+      ⟨_, _, hr⟩ | ⟨_, _, _, hr⟩ | ⟨_, _, _, hr⟩ | ⟨_, _, hr⟩ | ⟨_, _, _, hr⟩ | ⟨hm, hmdt, _, hr⟩ | ⟨_, hr⟩
+  all_goals try (injection hr with _ hacts; rw [hacts] at ha; simp at ha)
+  all_goals try (exact Outcome.noConfusion hr)
+  obtain ⟨hs, he⟩ := h0 (by omega)
+  rw [hs] at hr hm hmdt
+  have hgf := gains_frame s (timeSub now s.t0) w pw
+  simp only at hgf
+  rcases track_cases s now (timeSub now s.t0) (durationSeconds (timeSub now s.t)) (inv off) w pw with
+    ⟨hgt, ht⟩ | ⟨_, ht⟩
+  · rw [ht] at hr
+    injection hr with hs' hacts
+    rw [hacts] at ha
+    simp only [List.mem_singleton] at ha
+    injection ha with ho hd hf
+    refine ⟨he, hm, ?_, ?_, ?_, hmdt, hgt, hd, ho, ?_⟩
+    · rw [hs']; simp [hgf, hm]
+    · rw [hacts, ho, hd, hf]
+    · rw [hf, hs']
+    · rw [hs']; simp [hgf]
+  · rw [ht] at hr
+    injection hr with _ hacts
+    rw [hacts] at ha; simp at ha
+
+/-! ### histories -/
+
+/-- (state before, input, outcome) for every update of a history -/
+def trace (s : State) : List Input → List (State × Input × Outcome)
+  | [] => []
+  | x :: xs => (s, x, stepIn s x) :: trace ((stepIn s x).next s) xs
+
+theorem run_eq_trace (s : State) (xs : List Input) : run s xs = (trace s xs).map (·.2.2) := by
+  induction xs generalizing s with
+  | nil => rfl
+  | cons x xs ih => simp [run, trace, ih]
+
+theorem trace_step {s : State} {xs : List Input} {τ : State × Input × Outcome} (h : τ ∈ trace s xs) :
+    τ.2.2 = stepIn τ.1 τ.2.1 := by
+  induction xs generalizing s with
+  | nil => simp [trace] at h
+  | cons x xs ih =>
+    simp only [trace, List.mem_cons] at h
+    rcases h with rfl | h
+    · rfl
+    · exact ih h
+
+theorem trace_inv {P : State → Prop} (hstep : ∀ s x, P s → P ((stepIn s x).next s))
+    {s : State} (hs : P s) (xs : List Input) : (∀ τ ∈ trace s xs, P τ.1) ∧ P (final s xs) := by
+  induction xs generalizing s with
+  | nil => simp [trace, final, hs]
+  | cons x xs ih =>
+    have := ih (hstep s x hs)
+    simp only [trace, final, List.mem_cons]
+    exact ⟨by rintro τ (rfl | h); exact hs; exact this.1 τ h, this.2⟩
+
+/-- clock readings never decrease -/
+def NonDecreasing : List Input → Prop
+  | x :: y :: rest => x.now ≤ y.now ∧ NonDecreasing (y :: rest)
+  | _ => True
+
+/-- clock readings never decrease between two consecutive updates in the same clock epoch
+    (weaker than `NonDecreasing`: a step of the clock may move the readings anywhere) -/
+def NonDecreasingInEpoch : List Input → Prop
+  | x :: y :: rest => (x.clkEpoch = y.clkEpoch → x.now ≤ y.now) ∧ NonDecreasingInEpoch (y :: rest)
+  | _ => True
+
+theorem NonDecreasing.inEpoch : ∀ {xs : List Input}, NonDecreasing xs → NonDecreasingInEpoch xs
+  | [], _ => trivial
+  | [_], _ => trivial
+  | _ :: y :: rest, h => ⟨fun _ => h.1, NonDecreasing.inEpoch (xs := y :: rest) h.2⟩
+
+/-- Under per-epoch monotone readings every update of a history starts in a state satisfying
+    the invariant, sees a reading not before the previous one, and does not panic. -/
+theorem trace_safe {s : State} {xs : List Input} (hI : Inv s)
+    (hhead : ∀ x, xs.head? = some x → x.clkEpoch = s.epoch → s.mode ≠ 0 → s.t ≤ x.now)
+    (hm : NonDecreasingInEpoch xs) :
+    ∀ τ ∈ trace s xs, Inv τ.1 ∧ (τ.2.1.clkEpoch = τ.1.epoch → τ.1.mode ≠ 0 → τ.1.t ≤ τ.2.1.now) ∧
+      ∃ s' acts, τ.2.2 = .ok s' acts := by
+  induction xs generalizing s with
+  | nil => simp [trace]
+  | cons x xs ih =>
+    have hx := hhead x rfl
+    obtain ⟨s', acts, hst, hI', ht, he, hm0⟩ :=
+      step_safe (s := s) (e := x.clkEpoch) (now := x.now) (off := x.offset) (w := x.weight) (pw := x.pow) hI hx
+    have hnext : (stepIn s x).next s = s' := by simp [stepIn, hst, Outcome.next]
+    simp only [trace, List.mem_cons]
+    rintro τ (rfl | h)
+    · exact ⟨hI, hx, s', acts, hst⟩
+    · rw [hnext] at h
+      refine ih hI' ?_ ?_ τ h
+      · intro y hy hey _
+        cases xs with
+        | nil => simp at hy
+        | cons z zs =>
+          simp only [List.head?_cons, Option.some.injEq] at hy
+          subst hy
+          rw [ht]; exact hm.1 (by rw [hey, he])
+      · cases xs with
+        | nil => trivial
+        | cons z zs => exact hm.2
+
 end ScionTime.Pll
